@@ -125,7 +125,11 @@ func RecvVal[T any](ch <-chan T, v reflect.Value) T {
 	if !v.IsValid() {
 		return zero
 	}
-	return v.Interface().(T)
+	x := v.Interface()
+	if x == nil {
+		return zero // a nil interface value was received
+	}
+	return x.(T)
 }
 
 var teardownCaseIdx = -2
